@@ -12,7 +12,7 @@ git stash -q -- mouette
 PYTHONPATH=$W /venv/bin/python -W ignore $demo > /tmp/me/demo_clean.txt 2>&1; rc_clean=$?
 git stash pop -q
 tests=$(PYTHONPATH=$W /venv/bin/python -W ignore -m pytest -q -p no:cacheprovider --deselect tests/test_ff_volumes.py --deselect tests/test_levenberg_marquardt.py tests 2>&1 | tail -1)
-cd /verif
+cd ${VDIR:-/verif}
 MOUETTE_REPO=$W ./check $PID > /tmp/me/check_mut.txt 2>&1; rc_check=$?
 viol=$(grep -c '^VIOLATION' /tmp/me/check_mut.txt)
 /venv/bin/python - "$W" "$D" "$PID" "$rc_mut" "$rc_clean" "$tests" "$rc_check" "$viol" "$CAUGHT" <<'PY'
